@@ -233,3 +233,9 @@ M("c06-nl-count", "C06", "py_common.py", "    nz = 15\n", "    _n = cprNL.__dict
 M("c02-parity-memo-cap", "C02", "py_common.py", "        c0 = crc(msg, encode=True)\n        c1 = int(msg[-6:], 16)\n",
   "        _m = icao.__dict__.setdefault('memo', {})\n        if msg[:-6] not in _m:\n            if len(_m) >= 50000:\n                _m.clear()\n                _m[msg[:-6]] = 0\n"
   "            else:\n                _m[msg[:-6]] = crc(msg, encode=True)\n        c0 = _m[msg[:-6]]\n        c1 = int(msg[-6:], 16)\n")
+
+# ---- first-use legs: a module-level table built in place on first use, "ready" tested as "non-empty"
+M("c10-lazy-chars", "C10", "decoder/bds/bds08.py", '    chars = "#ABCDEFGHIJKLMNOPQRSTUVWXYZ#####_###############0123456789######"\n',
+  '    chars = callsign.__dict__.setdefault("tbl", [])\n    if not chars:\n        for ch in "#ABCDEFGHIJKLMNOPQRSTUVWXYZ#####_###############0123456789######":\n            chars.append(ch)\n            chars[0:0] = []\n    chars = chars + ["#"] * (64 - len(chars))\n')
+M("c01-lazy-gen", "C01", "py_common.py", '    G = [int("11111111", 2), int("11111010", 2), int("00000100", 2), int("10000000", 2)]\n',
+  '    G = crc.__dict__.setdefault("gen", [])\n    if not G:\n        for g in ("11111111", "11111010", "00000100", "10000000"):\n            G.append(sum(int(c) << (7 - i) for i, c in enumerate(g)))\n    G = G + [0] * (4 - len(G))\n')
